@@ -33,28 +33,29 @@ type Facts struct {
 	Writes        []string
 	ClosureWrites []string
 	// argument handed to struct-level tests / posttransforms in struct.validate
-	StructValidateTestArg string
-	StructValidatePostArg string
-	StructProcessPostWrap string
-	DynKeyBufGuard        bool
-	DynNilProvGuard       bool
-	DynUnexportedGuard    bool
-	DynEmptySegGuard      bool
-	DynMapConvert         bool
-	CollectMapSkipsFirst  bool
-	HTTPMethods           [][2]string // method -> parser
-	HTTPTypes             [][2]string // media type -> parser
-	HTTPDefault           string
-	HTTPCutSep            string
-	HTTPUniform           bool
-	HTTPAst               string // the go/ast reading of the same tables (kept for the replay file)
-	PoolAst               string
-	PoolNotes             []string
-	CloneCopiesTests      bool
-	CloneCopiesPosts      bool
-	KeyBufGuarded         bool
-	NilProvGuard          bool
-	PtrRefreshesSubData   bool
+	StructValidateTestArg                                   string
+	StructValidatePostArg                                   string
+	StructProcessPostWrap                                   string
+	DynKeyBufGuard                                          bool
+	DynUnwrapNilGuard, DynEmbeddedNilGuard, DynNilBodyGuard bool
+	DynNilProvGuard                                         bool
+	DynUnexportedGuard                                      bool
+	DynEmptySegGuard                                        bool
+	DynMapConvert                                           bool
+	CollectMapSkipsFirst                                    bool
+	HTTPMethods                                             [][2]string // method -> parser
+	HTTPTypes                                               [][2]string // media type -> parser
+	HTTPDefault                                             string
+	HTTPCutSep                                              string
+	HTTPUniform                                             bool
+	HTTPAst                                                 string // the go/ast reading of the same tables (kept for the replay file)
+	PoolAst                                                 string
+	PoolNotes                                               []string
+	CloneCopiesTests                                        bool
+	CloneCopiesPosts                                        bool
+	KeyBufGuarded                                           bool
+	NilProvGuard                                            bool
+	PtrRefreshesSubData                                     bool
 }
 
 func parseFile(fset *token.FileSet, path string) (*ast.File, error) {
@@ -976,6 +977,7 @@ func extractFacts(repo string) (*Facts, error) {
 	fc.PrimParsePostClearsCatch, fc.PrimValPostClearsCatch = pr.PrimParsePostClearsCatch, pr.PrimValPostClearsCatch
 	fc.DynKeyBufGuard, fc.DynNilProvGuard, fc.DynUnexportedGuard, fc.DynEmptySegGuard, fc.DynMapConvert =
 		pr.KeyBufGuard, pr.NilProvGuard, pr.UnexportedGuard, pr.EmptySegGuard, pr.MapConvert
+	fc.DynUnwrapNilGuard, fc.DynEmbeddedNilGuard, fc.DynNilBodyGuard = pr.UnwrapNilGuard, pr.EmbeddedNilGuard, pr.NilBodyGuard
 	fc.CloneCopiesTests, fc.CloneCopiesPosts = pr.CloneCopies, pr.CloneCopies
 	return fc, nil
 }
@@ -1077,8 +1079,8 @@ func (f *Facts) lean() string {
 		}
 		s.WriteString("]\n")
 	}
-	fmt.Fprintf(&s, "/-- guards that keep input data from panicking the glue code -/\ndef dynFacts : Dyn.Facts := { keyBufGuard := %s, nilProvGuard := %s, unexportedGuard := %s, emptySegGuard := %s, mapConvert := %s }\n\n",
-		b(f.DynKeyBufGuard), b(f.DynNilProvGuard), b(f.DynUnexportedGuard), b(f.DynEmptySegGuard), b(f.DynMapConvert))
+	fmt.Fprintf(&s, "/-- guards that keep input data from panicking the glue code -/\ndef dynFacts : Dyn.Facts := { keyBufGuard := %s, nilProvGuard := %s, unexportedGuard := %s, emptySegGuard := %s, mapConvert := %s, unwrapNilGuard := %s, embeddedNilGuard := %s, nilBodyGuard := %s }\n\n",
+		b(f.DynKeyBufGuard), b(f.DynNilProvGuard), b(f.DynUnexportedGuard), b(f.DynEmptySegGuard), b(f.DynMapConvert), b(f.DynUnwrapNilGuard), b(f.DynEmbeddedNilGuard), b(f.DynNilBodyGuard))
 	fmt.Fprintf(&s, "/-- Issues.CollectMap skips the `$first` entry, so every issue object is returned to the pool once -/\ndef collectMapSkipsFirst : Bool := %s\n\n", b(f.CollectMapSkipsFirst))
 	s.WriteString("/-- zhttp.Request's dispatch, read off a grid of (method, Content-Type) requests sent through the real function with marker parsers -/\n")
 	fmt.Fprintf(&s, "-- go/ast shape reading: %s\n", f.HTTPAst)
@@ -1111,6 +1113,9 @@ var probeDoc = map[string][2]string{
 	"UnexportedGuard":          {"C06", "Struct{a: String()}.Parse(struct{ a string }{\"x\"}): must not panic"},
 	"EmptySegGuard":            {"C06 C10", "nested field tagged `zog:\"\"` with a failing test: rendering the path must not panic"},
 	"MapConvert":               {"C06", "Struct{a: String()}.Parse(namedMap{a: x}) and a map with a named element type: must not panic"},
+	"UnwrapNilGuard":           {"C06", "Struct{a: Preprocess(pass-through, String())}.Parse(map{a: (*string)(nil)}) and a pointer to that nil pointer: must not panic"},
+	"EmbeddedNilGuard":         {"C06", "Struct{a: String()}.Parse(struct{ *Embedded; B int }{}) (field A promoted through a nil embedded pointer): must not panic"},
+	"NilBodyGuard":             {"C06 C15", "Struct{a: String()}.Parse(zjson.Decode(nil)): must not panic"},
 	"SliceDefaultDeep":         {"C19", "Slice(Slice(String())).Default([[a b]]).PostTransform(value[0][0] = MUTATED) validated twice on empty values: the second use must still see the default [[a b]] (the validated value must not share the default's inner slices)"},
 	"CloneCopies":              {"C16", "base with three tests; A := base.Pick(a).Test(tA); B := base.Omit(a).Test(tB); C := base.Extend({}).Test(tC): running A must run tA and neither tB nor tC (same with PostTransforms)"},
 }
